@@ -804,3 +804,92 @@ def degree_roles(repo, rep):
                 ok = it in ("G.nodes()", "G", "G.edges()", "G.edges")
                 rep.ob("ROLE", ok, "%s: class counts are taken over the graph (%s)" % (g.name, it), func=g, node=lp,
                        construct="counting loop over %s" % it, detail="" if ok else "counts are accumulated over %s: a node listed twice is counted twice" % it)
+
+
+def index_roles(repo, rep):
+    """ROLE: (s, i) class arrays of the effective-degree models and outer products of the pair-based models."""
+    rep.rule("ROLE", "S_si0[s][i]: s counts the susceptible and i the infected neighbours of the node (in SIR models by counting "
+                     "status == 'I', because degree - s also contains recovered neighbours); XY0 = X0[:,None]*Y0[None,:] "
+                     "(row factor is the first letter, column factor the second)")
+    for name, sir in (("SIS_effective_degree_from_graph", False), ("SIR_effective_degree_from_graph", True)):
+        f = repo.f(name)
+        rep.analysed(f)
+        n = 0
+        for c in walk_function(f.node):
+            st = c.stmt
+            if isinstance(st, ast.AugAssign) and isinstance(st.target, ast.Subscript) and isinstance(st.target.value, ast.Subscript) \
+                    and _k(st.target.value.value) in ("S_si0", "I_si0") and c.loops and isinstance(c.loops[-1], ast.For) \
+                    and _k(c.loops[-1].iter) in ("G.nodes()", "G"):
+                n += 1
+                node = _k(c.loops[-1].target)
+                a, b = _k(st.target.value.slice), _k(st.target.slice)
+                env = {}
+                for x in c.loops[-1].body:
+                    if isinstance(x, ast.Assign) and isinstance(x.targets[0], ast.Name):
+                        env[x.targets[0].id] = _k(x.value)
+
+                def count_of(letter):
+                    return "sum((1fornbrinG.neighbors(%s)ifstatus[nbr]=='%s'))" % (node, letter)
+                oka = env.get(a) == count_of("S")
+                okb = env.get(b) == count_of("I") or ((not sir) and env.get(b) in ("G.degree(%s)-%s" % (node, a),))
+                rep.ob("ROLE", oka and okb, "%s: %s[%s][%s] uses (#susceptible, #infected) neighbours of the node" % (name, _k(st.target.value.value), a, b),
+                       func=f, node=st, construct="%s: %s=%s ; %s=%s" % (name, a, env.get(a), b, env.get(b)),
+                       detail="" if (oka and okb) else "index %s or %s is not the count of susceptible resp. infected neighbours%s" % (
+                           a, b, " (in an SIR model degree - s also counts recovered neighbours)" if sir else ""))
+        rep.floor("ROLE", "%s class counters" % name, n, 1)
+    for name in ("SIS_pair_based", "SIR_pair_based"):
+        f = repo.f(name)
+        rep.analysed(f)
+        n = 0
+        for x in own_nodes(f.node):
+            if isinstance(x, ast.Assign) and re.fullmatch(r"[XY][XY]0", _k(x.targets[0])) and isinstance(x.value, ast.BinOp) \
+                    and isinstance(x.value.op, ast.Mult) and isinstance(x.value.left, ast.Subscript) and isinstance(x.value.right, ast.Subscript):
+                n += 1
+                tgt = _k(x.targets[0])
+                parts = {}
+                for side in (x.value.left, x.value.right):
+                    sl = side.slice
+                    role = "?"
+                    if isinstance(sl, ast.Tuple) and len(sl.elts) == 2:
+                        a0, a1 = sl.elts
+                        if isinstance(a0, ast.Slice) and isinstance(a1, ast.Constant) and a1.value is None:
+                            role = "row"
+                        elif isinstance(a1, ast.Slice) and isinstance(a0, ast.Constant) and a0.value is None:
+                            role = "col"
+                    parts[role] = _k(side.value)
+                ok = parts.get("row") == tgt[0] + "0" and parts.get("col") == tgt[1] + "0"
+                rep.ob("ROLE", ok, "%s: %s[i,j] = <%s_i %s_j> (row factor %s0, column factor %s0)" % (name, tgt, tgt[0], tgt[1], tgt[0], tgt[1]),
+                       func=f, node=x, construct="%s = %s" % (tgt, _k(x.value)),
+                       detail="" if ok else "outer product is transposed: %s[i,j] would hold <%s_i %s_j>" % (tgt, (parts.get("row") or "?")[0], (parts.get("col") or "?")[0]))
+        rep.floor("ROLE", "%s default pair initial conditions" % name, n, 2)
+
+
+def ic_guard(repo, rep):
+    rep.rule("CONS", "the consistency guard of the homogeneous pairwise models compares the pair counts with n times the WHOLE "
+                     "population (every compartment given), so that every consistent initial condition is accepted")
+    for name in ("SIS_homogeneous_pairwise", "SIR_homogeneous_pairwise"):
+        f = repo.f(name)
+        rep.analysed(f)
+        env = {}
+        for x in own_nodes(f.node):
+            if isinstance(x, ast.Assign) and isinstance(x.targets[0], ast.Name) and x.targets[0].id not in names_in(x.value):
+                env.setdefault(x.targets[0].id, x.value)
+        comps = [p for p in ("S0", "I0", "R0") if p in f.params]
+        want = {"*".join(sorted(["n", c])): 1.0 for c in comps}
+        guards = [c for c in walk_function(f.node) if isinstance(c.stmt, ast.Raise) and "EoNError" in short(c.stmt)]
+        ok = False
+        got = None
+        for c in guards:
+            for fx, pol in c.enclosing_conditions():
+                if pol and isinstance(fx, ast.Compare) and isinstance(fx.ops[0], (ast.Gt, ast.Lt)):
+                    big, small = (fx.left, fx.comparators[0]) if isinstance(fx.ops[0], ast.Gt) else (fx.comparators[0], fx.left)
+                    lb = linear(big, env=env)
+                    ls = linear(small, env=env)
+                    got = (lin_str(lb), lin_str(ls))
+                    from ..linear import lin_equal
+                    if lin_equal(ls, want) and lin_equal(lb, {"SS0": 1.0, "SI0": 2.0}):
+                        ok = True
+        rep.ob("CONS", ok, "%s: rejects exactly SS0 + 2*SI0 > n*(%s)" % (name, "+".join(comps)), func=f, node=guards[0].stmt if guards else f.node,
+               construct="%s guard: %s > %s" % (name, got[0] if got else None, got[1] if got else None),
+               detail="" if ok else "the guard compares with %s, not with n times the whole population: consistent initial conditions (e.g. with "
+               "recovered nodes of low degree) are rejected" % (got[1] if got else None))
